@@ -405,6 +405,17 @@ func (w *cliWorld) peerSaw(raw string) {
 			w.nrep++
 			w.outbox = append(w.outbox, fmt.Sprintf(`{"jsonrpc":"2.0","method":"srvnote","params":{"t":"n%d"}}`, w.nrep))
 		case 3:
+			if g.Chance("malformedcallback", 0.3) {
+				// a server-initiated request with one structural defect
+				w.nrep++
+				w.outbox = append(w.outbox, []string{
+					`{"jsonrpc":"2.0","id":"bad%d","method":"srvcall","params":5}`,
+					`{"jsonrpc":"1.0","id":"bad%d","method":"srvcall","params":{"t":"x"}}`,
+					`{"jsonrpc":"2.0","id":"bad%d","method":"srvcall","params":{"t":"x"},"extra%d":true}`,
+				}[g.Int("badcallback", 3)])
+				w.outbox[len(w.outbox)-1] = strings.ReplaceAll(w.outbox[len(w.outbox)-1], "%d", fmt.Sprint(w.nrep))
+				break
+			}
 			w.nrep++
 			tag := fmt.Sprintf("cb%d", w.nrep)
 			cb := &cbRec{Tag: tag, Steps: g.Int("cbsteps", 3), Hold: g.Chance("cbhold", 0.3), Enter: -1, Exit: -1}
